@@ -50,6 +50,21 @@ def ingest_rule(F, res, ingest_fn):
                               for (sb, op, arms, other) in Ru.switches(F, fn) if cr_or_len(F.trace(fn, op))
                               for tgt in set([b for _, b in arms] + [other]))
                 samples.append('%s bb%d %s' % (fn.split('::')[-1], bb, 'primary-store' if primary else ('guarded' if guarded else 'UNGUARDED')))
+                # which guard? the CR branch may only splice the CR out (both halves of the line kept); in-place cuts belong to the length branch
+                def is_cr(rs):
+                    return any(r[0] == 'call' and r[1].endswith(('::rfind', '::find')) for r in rs)
+                under_cr = any(Ru.edge_dominates(F, fn, sb, tgt, bb) for (sb, op, arms, other) in Ru.switches(F, fn) if is_cr(F.trace(fn, op))
+                               for tgt in set([b for _, b in arms] + [other]))
+                under_len = any(Ru.edge_dominates(F, fn, sb, tgt, bb) for (sb, op, arms, other) in Ru.switches(F, fn)
+                                if any(r[0] == 'param' and r[2] and r[2][-1] == 'max_line_length' for r in F.trace(fn, op))
+                                for tgt in set([b for _, b in arms] + [other]))
+                if under_cr and not under_len and not primary:
+                    n_idx = sum(1 for r in roots if r[0] == 'call' and r[1].endswith('::index'))
+                    if kind.startswith('mutcall') or n_idx < 2:
+                        res.violate('INGEST', 'fn=%s;field=raw_line;cr-form' % fn,
+                                    'under the CR search raw_line is not rebuilt from both the part before and the part after the CR: more than the carriage return is removed',
+                                    where=F.bodies[fn]['mir']['span']['at'])
+                        continue
                 if primary or guarded or from_input:
                     ok += 1
                 else:
